@@ -81,6 +81,13 @@ def check(ctx):
     dd = divs.own_methods["_divisions"]
     ok = (all(unparse(r.value) == "self.new_divisions" for r in returns(dd)) and bool(returns(dd)))
     ctx.ob("DELEG.divisions", dd, "RepartitionDivisions._divisions = the requested divisions", ok)
+    # ---------------- RepartitionSize: same piece bookkeeping as RepartitionToMore (source index i, output counter j)
+    rs = model.klass(RP, "RepartitionSize").own_methods["_layer"]
+    ok = bool(find("dsk[new_name, j] = (df._name, i)", rs)) and bool(find("dsk[split_name, i] = (split_evenly, (df._name, i), k)", rs)) and bool(find("dsk[new_name, j] = (getitem, (split_name, i), jj)", rs)) and len(find("j += 1", rs)) == 2 and any(isinstance(l, ast.For) and unparse(l.iter) == "enumerate(self._nsplits)" and unparse(l.target) == "(i, k)" for l in ast.walk(rs))
+    ctx.ob("ABS.size.pieces", rs, "RepartitionSize: an unsplit source partition i is passed through as output piece j; split ones contribute their k pieces in order", ok, "" if ok else "a passed-through piece reads the wrong source partition: rows are lost and duplicated when an unsplit partition follows a split one")
+    cat_ = [n for n in ast.walk(rs) if isinstance(n, ast.DictComp)]
+    ok = len(cat_) == 1 and unparse(cat_[0].value) == "(methods.concat, [(new_name, j) for j in range(start, end)])" and unparse(cat_[0].generators[0].iter) == "enumerate(zip(self._partition_boundaries, self._partition_boundaries[1:]))"
+    ctx.ob("ABS.size.tiling", rs, "output i = concat of pieces range(b[i], b[i+1]) over consecutive boundaries", ok)
 
 
 VARIANTS = [
